@@ -523,3 +523,136 @@ def gen_scenario(rng, focus, client=None, variant=0):
         qt, life = 250, 600
         buf = 1232
     return Scenario(client, strategy, qt, life, edns, rd, buf, qs)
+
+
+# ---------------------------------------------------------------- the timed model (Timed.v) on a scenario
+def timed_model_line(cid, sc, q):
+    """the `tq` line for the extracted timed machine (one raw query, start 0, exact timers), or None if the
+    scenario uses something the translation below does not cover"""
+    if q.kind != "raw" or not valid_name(q.name) or sc.buf < 512 or "+" in sc.strategy or q.drop is not None:
+        return None
+    life = sc.life
+    sends, i = [], 0
+    while True:
+        t = i * sc.qt if sc.qt is not None else 0
+        if t >= life or (sc.qt is None and i > 0):
+            break
+        sends.append(t)
+        i += 1
+    arrivals = []
+    for i, ts in enumerate(sends):
+        for (d, what) in (q.udp[i] if i < len(q.udp) else []):
+            if what == "resp":
+                b = response_bytes(q.name, q.qtype, q.qclass)
+            elif what == "resptc":
+                b = response_bytes(q.name, q.qtype, q.qclass, tc=True)
+            elif what.startswith("J") and what[1:] in JUNK:
+                b = b"\x00\x01\x81\x80" + bytes(8)          # any datagram the filter rejects: another id
+            else:
+                return None
+            arrivals.append((ts + d, b))
+    arrivals.sort(key=lambda x: x[0])
+    # when the TCP exchange starts: at 0 (tcp-only) or when the truncated answer is accepted
+    t_conn = 0
+    if not sc.strategy.startswith("tcp"):
+        t_conn = None
+        for (ta, b) in arrivals:
+            if ta >= life:
+                break
+            if b[:2] == b"\x00\x00":
+                t_conn = ta if (b[2] & 2) else None
+                break
+    adelay, mode = q.tcp
+    p = mode.split(":")
+    body = response_bytes(q.name, q.qtype, q.qclass, tcp=True)
+    wire = len(body).to_bytes(2, "big") + body
+    segs, eof = [], "-"
+    if t_conn is not None:
+        t0 = t_conn + adelay
+        if p[0] == "full":
+            segs, eof = [(t0, wire)], str(t0)
+        elif p[0] == "stall":
+            n = int(p[1])
+            segs = [(t0, wire[:n])] if n > 0 else []
+        elif p[0] in ("drip", "split"):
+            gap = int(p[1])
+            cuts = list(range(1, len(wire))) if p[0] == "drip" else sorted(set(int(c) for c in p[2].split(".") if c))
+            pos, t = 0, t0
+            for c in cuts + [len(wire)]:
+                c = min(c, len(wire))
+                if c <= pos:
+                    continue
+                segs.append((t, wire[pos:c]))
+                pos = c
+                if pos < len(wire):
+                    t += gap
+            eof = str(t)
+        else:
+            return None
+    arr = ",".join("%d:%s" % (t, b.hex()) for (t, b) in arrivals) or "-"
+    sg = ",".join("%d:%s" % (t, b.hex()) for (t, b) in segs if b) or "-"
+    return "%s tq %s %s 0 %s %d %d 0 %d %s %d %s 0 %s %s" % (cid, sc.client, sc.strategy, hx(q.name), q.qtype, q.qclass, life,
+                                                             "-" if sc.qt is None else str(sc.qt), sc.buf, arr, sg, eof)
+
+
+def timed_model_vs_oracle(sc, q, model):
+    """None if the extracted timed machine and the code-blind expectation agree on this scenario"""
+    import re
+    m = re.match(r"S=([0-9,]*) EV=([UT]*) T=(\d+) R=(.*)$", model)
+    if not m:
+        return "model: " + model[:80]
+    ms = [int(x) for x in m.group(1).split(",") if x]
+    e = expect_query(sc, q)
+    want_s = [i * sc.qt if sc.qt is not None else 0 for i in range(e["sends"] or 0)]
+    if ms != want_s:
+        return "transmissions: model %s, expectation %s" % (ms, want_s)
+    ev = ("U" if not sc.strategy.startswith("tcp") else "") + ("T" if e["tcp"] else "")
+    if m.group(2) != ev:
+        return "exchanges: model %s, expectation %s" % (m.group(2), ev)
+    if e["kind"] == "ok":
+        want = "ok:%d:%s" % (len(e["payload"]), e["payload"].hex() or "-")
+        if m.group(4).replace(":-", ":") != want.replace(":-", ":"):
+            return "result: model %s, expectation %s" % (m.group(4)[:60], want[:60])
+    elif m.group(4) != e["kind"]:
+        return "result: model %s, expectation %s" % (m.group(4)[:60], e["kind"])
+    if abs(int(m.group(3)) - e["t"]) > 0:
+        return "end of the call: model at %s ms, expectation at %d ms" % (m.group(3), e["t"])
+    return None
+
+
+def gen_timed_random(rng, client):
+    """random single-query timing scenarios for model-vs-expectation only (no network): arrivals on and around
+    the attempt and lifetime boundaries, junk and answers in any order, TCP replies that trickle or stall"""
+    qt = rng.choice([None, 100, 250, 300, 333, 500])
+    life = rng.choice([300, 600, 1000, 1050, 1500]) + rng.choice([0, 0, 1, -1, 7])
+    strategy = rng.choice(["udp", "udp", "udp", "notcp", "tcp"])
+    name = rand_name(rng)
+    qtype = rng.choice([1, 28, 16])
+    nat = (life // qt + 1) if qt else 1
+    edge = lambda base: max(0, base + rng.choice([-2, -1, 0, 1, 2]))
+    udp = []
+    answered = False
+    for i in range(nat):
+        items = []
+        for _ in range(rng.choice([0, 0, 1, 2, 5])):
+            d = rng.choice([rng.randrange(0, (qt or life) + 50), edge(qt or life), edge(max(0, life - i * (qt or 0)))])
+            items.append((d, "J" + rng.choice(JUNK)))
+        if not answered and rng.random() < 0.3:
+            d = rng.choice([rng.randrange(0, (qt or life) + 50), edge(qt or life), edge(max(0, life - i * (qt or 0))), 0])
+            items.append((d, rng.choice(["resp", "resp", "resptc"])))
+            answered = True
+        items.sort(key=lambda x: x[0])
+        udp.append(items)
+    body = response_bytes(name, qtype, 1, tcp=True)
+    r = rng.random()
+    if r < 0.3:
+        mode = "full"
+    elif r < 0.5:
+        mode = "stall:%d" % rng.choice([0, 1, 2, 3, len(body) + 1, len(body) + 2])
+    elif r < 0.75:
+        mode = "drip:%d" % rng.choice([1, 5, 15, 40])
+    else:
+        cuts = sorted(set(rng.randrange(1, len(body) + 2) for _ in range(rng.choice([1, 2, 4]))))
+        mode = "split:%d:%s" % (rng.choice([3, 50, 200, 450]), ".".join(map(str, cuts)))
+    q = Query("raw", name, qtype, 1, udp, (rng.choice([0, 0, 40, 250, life - 1, life]), mode))
+    return Scenario(client, strategy, qt, life, None, True, rng.choice([512, 1232]), [q])
